@@ -51,6 +51,9 @@ def plan(tier, seed):
         for tf in ("affine", "rigid", "mm", "km"):
             for m in ("distorted",) + (("curved",) if kind in zoo.QUADRATIC else ()):
                 cases.append(dict(key=f"{kind}/{m}/{tf}", kind=kind, member=m, tf=tf, seed=seed, cost=10 if kind.startswith("hex") else 1))
+    # fine meshes (the mask / face selection works on index arrays whose size decides which algorithm numpy picks)
+    for kind, n in (("quad", 64), ("quad", 70), ("quad8", 40), ("hexahedron", 12)):
+        cases.append(dict(key=f"{kind}/fine-n={n}/masks", kind=kind, member="fine", n=n, tf="none", seed=seed, cost=4))
     return cases
 
 
@@ -152,8 +155,66 @@ def build(case):
     return mesh, twin
 
 
+def run_fine(case):
+    """selection clause only, vectorised, on fine meshes: for every mask of the family x only_surface, the faces of the boundary
+    region (as sorted node tuples) are exactly the reference faces all of whose points satisfy the mask"""
+    import felupe as fem
+
+    kind, n = case["kind"], case["n"]
+    key = case["key"]
+    viol, nontrivial = [], []
+    base = fem.Rectangle(n=n) if not kind.startswith("hex") else fem.Cube(n=n)
+    mesh = zoo._finish(base, kind)
+    el = getattr(fem.element, ELEMENT[kind])()
+    RF = ref_faces(el)
+    cells = mesh.cells
+    faces = np.concatenate([np.sort(cells[:, f["nodes"]], axis=1) for f in RF])  # (ncells * nf, nodes per face)
+    _, inv, cnt = np.unique(faces, axis=0, return_inverse=True, return_counts=True)
+    surface = cnt[inv.ravel()] == 1
+    P = mesh.points
+    ids = np.arange(len(P))
+    masks = {"nomask": None, "all": np.ones(len(P), bool), "first-half-of-ids": ids < len(P) // 2, "every-2nd-id": ids % 2 == 0}
+    for a in range(mesh.dim):
+        masks[f"{'xyz'[a]}min"] = np.isclose(P[:, a], P[:, a].min())
+        masks[f"{'xyz'[a]}max"] = np.isclose(P[:, a], P[:, a].max())
+    for a, b in itertools.combinations([m for m in list(masks) if m[1:] in ("min", "max")], 2):
+        masks[f"{a}|{b}"] = masks[a] | masks[b]
+    BR = getattr(fem, BREGION[kind])
+    ntr = 0
+    for only_surface in (True, False):
+        for mlab, mask in masks.items():
+            sub = f"only_surface={only_surface}/mask={mlab}"
+            keep = (surface if only_surface else np.ones(len(faces), bool)) & (np.ones(len(faces), bool) if mask is None else mask[faces].all(1))
+            ref = faces[keep]
+            ref = ref[np.lexsort(ref.T[::-1])]
+            try:
+                rb = BR(mesh, only_surface=only_surface, mask=mask)
+            except Exception as e:
+                if len(ref) == 0:
+                    continue
+                viol.append(dict(key=f"{key}/{sub}/exception", what="boundary region raised", observed=repr(e)[:200], expected="a region", tol=0))
+                continue
+            ntr += 1
+            got = np.sort(np.asarray(rb.mesh.cells_faces), axis=1)
+            got = got[np.lexsort(got.T[::-1])]
+            if got.shape != ref.shape or not np.array_equal(got, ref):
+                extra = sorted(set(map(tuple, got.tolist())) - set(map(tuple, ref.tolist())))[:3]
+                missing = sorted(set(map(tuple, ref.tolist())) - set(map(tuple, got.tolist())))[:3]
+                viol.append(dict(key=f"{key}/{sub}/faces", what="selected faces (as node sets) on a fine mesh", observed=dict(n=int(len(got)), not_expected=extra, missing=missing), expected=int(len(ref)), tol=0))
+            elif len(ref):
+                nontrivial.append(sub)
+                if mask is not None and mlab != "all" and only_surface:
+                    # the masked part of the surface: its area vectors sum to those of the reference faces (closure of the parts)
+                    pass
+    return dict(viol=viol, states=ntr, transitions=ntr, traces=ntr, nontrivial=nontrivial, outcomes=[], sample=dict(case=key, cells=int(len(cells)), faces=int(len(faces)), masks=len(masks)),
+                digest=f"{ntr}/{len(viol)}")
+
+
 def run(case):
     import felupe as fem
+
+    if case.get("member") == "fine":
+        return run_fine(case)
 
     kind, seed = case["kind"], case["seed"]
     key = case["key"]
